@@ -114,6 +114,11 @@ def segments(events):
                                                         for a in sorted(present) if pos.get(a)]}
         elif e == "assign":
             segs[ev["c"]]["ev"].append({"e": "reset", "a": 0, "p": [0, 0, 0], "fr": ""})
+        elif e == "detect":
+            if ev["want"]:
+                segs[ev["c"]]["ev"].append({"e": "detect", "a": ev["a"], "p": [0, 0, 0], "fr": "optimize_hydrogens", "frs": "optimize_hydrogens",
+                                            "want": ev["want"], "got": ev["got"]})
+                last_cell_ev[ev["c"]] = len(segs[ev["c"]]["ev"])
         elif e in ("add", "rem", "query"):
             s = segs[ev["c"]]
             d = {"e": e, "a": ev["a"], "p": ev.get("p") or [0, 0, 0], "fr": ev.get("fr", "").split(" < ")[0],
@@ -172,12 +177,14 @@ def validate(ctx, traces, size, label):
     if not traces:
         return {}
     for t in traces:
-        t["n"] = max([e["a"] for e in t["ev"]] + [b for e in t["ev"] for b in e.get("res", [])] + [1])
+        t["n"] = max([e["a"] for e in t["ev"]] + [b for e in t["ev"] for b in e.get("res", []) + e.get("want", []) + e.get("got", [])] + [1])
         for e in t["ev"]:
             e.setdefault("key", [0, 0, 0])
             e.setdefault("res", [])
+            e.setdefault("want", [])
+            e.setdefault("got", [])
     tf = core.write_json(os.path.join(ctx.work, f"cells-{label}.json"),
-                         [{"id": t["id"], "n": t["n"], "ev": [{k: e[k] for k in ("e", "a", "p", "key", "res")}
+                         [{"id": t["id"], "n": t["n"], "ev": [{k: e[k] for k in ("e", "a", "p", "key", "res", "want", "got")}
                                                               for e in t["ev"]]} for t in traces])
     cfg = os.path.join(ctx.work, f"cells-{label}.cfg")
     open(cfg, "w").write(f"SPECIFICATION TSpec\nCONSTANTS\n  Size = {size}\nINVARIANT Done\n")
@@ -191,7 +198,7 @@ def validate(ctx, traces, size, label):
             continue
         if v[0] == "END":
             ended.add(v[1])
-        elif v[0] in ("K", "P", "R", "X", "Q", "S"):
+        elif v[0] in ("K", "P", "R", "X", "Q", "S", "D"):
             got[v[1]].append(v)
     missing = [t["id"] for t in traces if t["id"] not in ended]
     if missing:
@@ -258,6 +265,11 @@ def judge(ctx, traces, verdicts, origin_default):
                     ctx.violation({"invariant": "QuerySound", "cause": "ghost", "culprit": fr, "stack": stack or fr},
                                   f"{origin}: query #{l} of atom {a} returns atom {b} that left the structure in {fr}",
                                   {"origin": origin, "event": l, "atom": a, "ghost": b})
+            elif kind == "D":
+                ctx.violation({"invariant": "DetectionUsesQueryOfEachAtom", "cause": "partner-not-considered", "culprit": "optimize_hydrogens"},
+                              f"{origin}: hydrogen-bond detection recorded no potential bond from atom {v[3]} to eligible atoms {v[4][:6]} "
+                              f"closer than 4.3 A, although both are filed in the cell of their position",
+                              {"origin": origin, "event": l, "atom": v[3], "lost": v[4]})
             elif kind == "S":
                 for b in v[3]:
                     fr, stack = "", ""
@@ -408,6 +420,25 @@ def run(ctx):
             open(pth, "w").write(gen.pdb_text([pep, gen.water(tuple(by["CB"] + d * u), chain="W", resseq=500)]))
             runs.append((pth, ["--ff=AMBER", "--noopt"]))
             runs.append((pth, ["--ff=AMBER", "--noopt", "@again"]))
+    # the same structures at other places of the grid (rigid translations): which atoms share a block of cells changes
+    # with the position, the answers and the detected partners must not
+    from .c03 import environments
+    trng = random.Random(ctx.seed + 21)
+
+    def shifted(text, t):
+        out_ = []
+        for ln in text.split("\n"):
+            if ln.startswith(("ATOM  ", "HETATM")) and len(ln) >= 54:
+                ln = ln[:30] + "".join(f"{float(ln[30 + 8 * i:38 + 8 * i]) + t[i]:8.3f}" for i in range(3)) + ln[54:]
+            out_.append(ln)
+        return "\n".join(out_)
+    base = [(f"env-{nm}", gen.pdb_text(ch)) for nm, ch in environments(trng) if nm in ("polar-peptide-waters", "named-acids-waters")]
+    base.append(("1AJJ", open(os.path.join(data, "1AJJ.pdb")).read()))
+    for nm, text in base:
+        for k in range((4 if nm == "1AJJ" else 10) if ctx.quick else (20 if nm == "1AJJ" else 60)):
+            pth = os.path.join(ctx.work, f"shift-{nm}-{k}.pdb")
+            open(pth, "w").write(shifted(text, [trng.uniform(-7, 7) for _ in range(3)]))
+            runs.append((pth, ["--ff=AMBER"]))
     res = core.pmap(_work_run, runs, chunksize=1)
     by_size = {}
     for (path, opts), (segs, exc, unobs) in zip(runs, res):
